@@ -101,6 +101,16 @@ type Access struct {
 	Lock  int // lock mode held at that moment on any mutex: 0 none, >0 readers, -1 writer
 	Site  string
 }
+// TraceEv: ordered visible events (mutex operations, accesses to pre-existing maps) of a path.
+type TraceEv struct {
+	Kind string // Lock RLock Unlock RUnlock lookup update delete replace
+	Obj  int
+	Key  string
+	Res  bool // lookup: found
+	Val  int  // update: object id of the stored value
+	Site string
+}
+
 type LockEv struct {
 	Op   string
 	Key  string
@@ -125,12 +135,13 @@ type State struct {
 	cutDone bool
 	dead    bool
 	notes   []string
+	trace   []TraceEv
 }
 
 func (s *State) clone() *State {
 	n := &State{heap: make(map[int]*Obj, len(s.heap)), pc: append([]*Term{}, s.pc...), steps: s.steps,
 		allocs: append([]AllocRec{}, s.allocs...), acc: append([]Access{}, s.acc...), lockEvs: append([]LockEv{}, s.lockEvs...),
-		imprec: append([]string{}, s.imprec...), ret: s.ret, panicd: s.panicd, cut: s.cut, notes: append([]string{}, s.notes...)}
+		imprec: append([]string{}, s.imprec...), ret: s.ret, panicd: s.panicd, cut: s.cut, notes: append([]string{}, s.notes...), trace: append([]TraceEv{}, s.trace...)}
 	if s.locks != nil {
 		n.locks = map[string]int{}
 		for k, v := range s.locks {
@@ -198,6 +209,7 @@ type Engine struct {
 	crcExact int
 	noSlice  bool
 	deadline time.Time
+	havocLookup map[int]bool // map objects whose lookups answer nondeterministically (C19 layer 3)
 	lazy     int // >0: inside a merged sub-exploration: byte-local branch conditions fork without a feasibility query
 }
 
@@ -543,6 +555,11 @@ func (e *Engine) store(s *State, p *Ptr, v Value, site string) {
 	}
 	e.access(s, p.Obj, true, site)
 	o := s.heap[p.Obj]
+	if p.Obj <= e.baseMax {
+		if np, isPtr := v.(*Ptr); isPtr && np.Obj != 0 && s.heap[np.Obj] != nil && s.heap[np.Obj].Kind == kMap {
+			s.trace = append(s.trace, TraceEv{Kind: "replace", Obj: p.Obj, Site: site})
+		}
+	}
 	switch o.Kind {
 	case kCell:
 		o.Val = update(o.Val, p.Path, v)
@@ -1127,6 +1144,15 @@ func (e *Engine) step(s *State) []*State {
 		e.access(s, mp.Obj, true, e.site(x.Pos()))
 		m := s.heap[mp.Obj]
 		k, v := e.get(s, f, x.Key), e.get(s, f, x.Value)
+		if mp.Obj <= e.baseMax {
+			vid := 0
+			if iv, ok := v.(*IfaceV); ok && iv.T != nil {
+				if pp, ok := iv.V.(*Ptr); ok {
+					vid = pp.Obj
+				}
+			}
+			s.trace = append(s.trace, TraceEv{Kind: "update", Obj: mp.Obj, Key: constKey(k), Val: vid, Site: e.site(x.Pos())})
+		}
 		found := false
 		for i := range m.M {
 			c := keyEqTerm(m.M[i].K, k)
@@ -1374,6 +1400,20 @@ func (e *Engine) lookup(s *State, f *Frame, x *ssa.Lookup, set func(Value)) []*S
 	}
 	e.access(s, mp.Obj, false, e.site(x.Pos()))
 	entries := s.heap[mp.Obj].M
+	keyStr := constKey(k)
+	if e.havocLookup[mp.Obj] {
+		// the map content is unknown (other goroutines may have changed it): both answers are possible
+		o := s.clone()
+		var found Value = zero
+		if len(entries) > 0 {
+			found = entries[0].V
+		}
+		o.trace = append(o.trace, TraceEv{Kind: "lookup", Obj: mp.Obj, Key: keyStr, Res: true, Site: e.site(x.Pos())})
+		result(o, found, true)
+		s.trace = append(s.trace, TraceEv{Kind: "lookup", Obj: mp.Obj, Key: keyStr, Res: false, Site: e.site(x.Pos())})
+		result(s, zero, false)
+		return []*State{o}
+	}
 	// concrete fast path
 	var conds []*Term
 	allConcrete := true
@@ -1794,4 +1834,21 @@ func (e *Engine) forkRune(s *State, r *Term, site string, apply func(st *State, 
 			apply(st, b)
 		}
 	})
+}
+
+func constKey(k Value) string {
+	if sv, ok := k.(*StringV); ok {
+		b := sv.B.Norm()
+		if b.Vec != nil {
+			out := make([]byte, len(b.Vec))
+			for i, t := range b.Vec {
+				if !t.IsConst() {
+					return "?"
+				}
+				out[i] = byte(t.Val)
+			}
+			return string(out)
+		}
+	}
+	return "?"
 }
